@@ -70,6 +70,14 @@ func hlistGet(v string, i int) string {
 
 // ---- value generators ---------------------------------------------------------------------------
 
+// gen writes func gN(k, d int) T. k >= 0 selects among a handful of values per kind. NEGATIVE k are the
+// storage shapes the Clone laws add to their pool, applied at EVERY position of the value at once:
+//
+//	-1  every slice / Seq / []byte is empty WITH spare capacity (make(T, 0, 4)), every map is empty non-nil
+//	-2  every slice / Seq has one element, every map one entry, whose own slices / maps are of shape -1
+//	-3  every slice / Seq has one element and spare capacity (len 1, cap 8), elements of shape -3
+//
+// Options are defined, pointers non-nil (down to the recursion bound), basic leaves take their k = 0 value.
 func (g *lawGen) gen(t *TX) string {
 	name, fresh := g.fn("g", t.Key())
 	if !fresh {
@@ -78,6 +86,7 @@ func (g *lawGen) gen(t *TX) string {
 	T := g.src(t)
 	var body string
 	el := func(i int) string { return g.gen(t.El[i]) }
+	neg := "if k < 0 {\n\tk = 0\n}\n"
 	switch t.K {
 	case KBasic:
 		switch {
@@ -92,24 +101,27 @@ func (g *lawGen) gen(t *TX) string {
 		default:
 			body = fmt.Sprintf("return %s([...]int{2, 3, 0, -1, 1, 5}[k%%6])", T)
 		}
+		body = neg + body
 	case KBytes:
-		body = `return [][]byte{[]byte("ab"), []byte("ba"), []byte("a"), nil, {}, []byte("abc")}[k%6]`
+		body = "switch k {\ncase -1:\n\treturn make([]byte, 0, 4)\ncase -3:\n\treturn append(make([]byte, 0, 8), 'a')\n}\n" + neg + `return [][]byte{[]byte("ab"), []byte("ba"), []byte("a"), nil, {}, []byte("abc")}[k%6]`
 	case KSlice, KSeq:
 		e := el(0)
-		body = fmt.Sprintf("switch k %% 6 {\ncase 0:\n\treturn %[1]s{%[2]s(0, d), %[2]s(1, d)}\ncase 1:\n\treturn %[1]s{%[2]s(1, d), %[2]s(0, d)}\ncase 2:\n\treturn %[1]s{%[2]s(0, d)}\ncase 3:\n\treturn nil\ncase 4:\n\treturn %[1]s{}\n}\nreturn %[1]s{%[2]s(0, d), %[2]s(1, d), %[2]s(2, d)}", T, e)
+		body = fmt.Sprintf("switch k {\ncase -1:\n\treturn make(%[1]s, 0, 4)\ncase -2:\n\treturn %[1]s{%[2]s(-1, d)}\ncase -3:\n\treturn append(make(%[1]s, 0, 8), %[2]s(-3, d))\n}\n", T, e) + neg +
+			fmt.Sprintf("switch k %% 6 {\ncase 0:\n\treturn %[1]s{%[2]s(0, d), %[2]s(1, d)}\ncase 1:\n\treturn %[1]s{%[2]s(1, d), %[2]s(0, d)}\ncase 2:\n\treturn %[1]s{%[2]s(0, d)}\ncase 3:\n\treturn nil\ncase 4:\n\treturn %[1]s{}\n}\nreturn %[1]s{%[2]s(0, d), %[2]s(1, d), %[2]s(2, d)}", T, e)
 	case KOption:
 		e := el(0)
-		body = fmt.Sprintf("switch k %% 4 {\ncase 0:\n\treturn fp.Some(%[1]s(0, d))\ncase 1:\n\treturn fp.Some(%[1]s(1, d))\ncase 2:\n\treturn fp.None[%[2]s]()\n}\nreturn fp.Some(%[1]s(2, d))", e, g.src(t.El[0]))
+		body = fmt.Sprintf("if k < 0 {\n\treturn fp.Some(%s(k, d))\n}\n", e) + fmt.Sprintf("switch k %% 4 {\ncase 0:\n\treturn fp.Some(%[1]s(0, d))\ncase 1:\n\treturn fp.Some(%[1]s(1, d))\ncase 2:\n\treturn fp.None[%[2]s]()\n}\nreturn fp.Some(%[1]s(2, d))", e, g.src(t.El[0]))
 	case KPtr:
 		e := el(0)
-		body = fmt.Sprintf("if d >= 3 || k%%4 == 2 {\n\treturn nil\n}\nv := %s([...]int{0, 1, 0, 2}[k%%4], d+1)\nreturn &v", e)
+		body = fmt.Sprintf("if k < 0 {\n\tif d >= 3 {\n\t\treturn nil\n\t}\n\tv := %[1]s(k, d+1)\n\treturn &v\n}\nif d >= 3 || k%%4 == 2 {\n\treturn nil\n}\nv := %[1]s([...]int{0, 1, 0, 2}[k%%4], d+1)\nreturn &v", e)
 	case KMap:
 		k0, k1 := `"p"`, `"q"`
 		if t.El[0].Basic != "string" {
 			k0, k1 = "1", "2"
 		}
 		e := el(1)
-		body = fmt.Sprintf("switch k %% 5 {\ncase 0:\n\treturn %[1]s{%[3]s: %[2]s(0, d), %[4]s: %[2]s(1, d)}\ncase 1:\n\treturn %[1]s{%[3]s: %[2]s(1, d), %[4]s: %[2]s(0, d)}\ncase 2:\n\treturn %[1]s{%[3]s: %[2]s(0, d)}\ncase 3:\n\treturn nil\n}\nreturn %[1]s{}", T, e, k0, k1)
+		body = fmt.Sprintf("switch k {\ncase -1:\n\treturn %[1]s{}\ncase -2, -3:\n\treturn %[1]s{%[3]s: %[2]s(-1, d)}\n}\n", T, e, k0) + neg +
+			fmt.Sprintf("switch k %% 5 {\ncase 0:\n\treturn %[1]s{%[3]s: %[2]s(0, d), %[4]s: %[2]s(1, d)}\ncase 1:\n\treturn %[1]s{%[3]s: %[2]s(1, d), %[4]s: %[2]s(0, d)}\ncase 2:\n\treturn %[1]s{%[3]s: %[2]s(0, d)}\ncase 3:\n\treturn nil\n}\nreturn %[1]s{}", T, e, k0, k1)
 	case KTuple2:
 		body = fmt.Sprintf("return %s{I1: %s(k, d), I2: %s(k, d)}", T, el(0), el(1))
 	case KHList:
@@ -134,13 +146,13 @@ func (g *lawGen) gen(t *TX) string {
 			for i, f := range fs {
 				args[i] = fmt.Sprintf("%s(ks[%d], d)", g.gen(f.T), i)
 			}
-			body = fmt.Sprintf("var ks [%d]int\nswitch k %% 6 {\ncase 1:\n\tks[%d] = 1\ncase 2:\n\tks[%d] = 2\ncase 3, 5:\n\tfor i := range ks {\n\t\tks[i] = k %% 6\n\t}\ncase 4:\n\tks[0] = 2\n}\nreturn %s(%s)",
+			body = fmt.Sprintf("var ks [%d]int\nswitch k %% 6 {\ncase 1:\n\tks[%d] = 1\ncase 2:\n\tks[%d] = 2\ncase 3, 5:\n\tfor i := range ks {\n\t\tks[i] = k %% 6\n\t}\ncase 4:\n\tks[0] = 2\n}\nif k < 0 {\n\tfor i := range ks {\n\t\tks[i] = k\n\t}\n}\nreturn %s(%s)",
 				len(fs), firstString, len(fs)-1, g.xfn("XNew_", t), strings.Join(args, ", "))
 		} else if t.Decl.IsStruct {
 			fs := fieldsOf(t, g.p)
 			args := make([]string, len(fs))
 			for i, f := range fs {
-				args[i] = fmt.Sprintf("%s(k+%d, d)", g.gen(f.T), i)
+				args[i] = fmt.Sprintf("%s(c08k(k, %d), d)", g.gen(f.T), i)
 			}
 			body = "return " + g.xfn("XNew_", t) + "(" + strings.Join(args, ", ") + ")"
 		} else {
@@ -162,13 +174,14 @@ type sem struct {
 	tc  int // -1 structural, else TC
 	ctx *Pkg
 	rec bool
+	dp  string // derive package of the directive ("" = the library's)
 }
 
 func (s sem) key() string {
 	if s.tc < 0 {
 		return "se"
 	}
-	return fmt.Sprintf("%s/%s/%v", tcName[s.tc], s.ctx.Name, s.rec)
+	return fmt.Sprintf("%s/%s/%v/%s", tcName[s.tc], s.ctx.Name, s.rec, s.dp)
 }
 
 func (g *lawGen) resolve(s sem, t *TX) resolution {
@@ -231,6 +244,10 @@ func (g *lawGen) eqv(s sem, t *TX) string {
 			} else if t.Sem == "" {
 				if o := s.ctx.findOverride(TC(s.tc), "basic:"+t.Basic); o != nil && o.Variant == "fold" {
 					body = "return strings.EqualFold(a, b)"
+				} else if o == nil && s.tc == int(Eq) && s.dp == "foldeq" && t.Basic == "string" {
+					// no instance in the working package: the directive's OWN derive package comes next, and
+					// foldeq declares a case-insensitive String
+					body = "return strings.EqualFold(a, b)"
 				}
 			}
 		}
@@ -240,7 +257,7 @@ func (g *lawGen) eqv(s sem, t *TX) string {
 		body = fmt.Sprintf("return rSliceEq(a, b, %s)", el(0))
 	case KSeq:
 		if s.tc == int(Eq) && s.ctx.SortedSeq {
-			body = fmt.Sprintf("return rSortedEq(a, b, %s, %s)", g.less(sem{int(Ord), s.ctx, s.rec}, t.El[0]), el(0))
+			body = fmt.Sprintf("return rSortedEq(a, b, %s, %s)", g.less(sem{int(Ord), s.ctx, s.rec, ""}, t.El[0]), el(0))
 		} else {
 			body = fmt.Sprintf("return rSliceEq(a, b, %s)", el(0))
 		}
@@ -294,7 +311,7 @@ func (g *lawGen) eqv(s sem, t *TX) string {
 				body = "return a == b"
 			}
 		default:
-			body = fieldwise(sem{s.tc, r.ctx, r.rec})
+			body = fieldwise(sem{s.tc, r.ctx, r.rec, r.dp})
 		}
 	default:
 		panic("eqv: open type " + t.Key())
@@ -406,7 +423,7 @@ func (g *lawGen) less(s sem, t *TX) string {
 		case mDefault:
 			body = "return a < b"
 		default:
-			fs := sem{int(Ord), r.ctx, r.rec}
+			fs := sem{int(Ord), r.ctx, r.rec, ""}
 			if !d.IsStruct {
 				u := d.Under.Subst(d.bind(t.El))
 				body = fmt.Sprintf("return %s(%s(a), %s(b))", g.less(fs, u), g.src(u), g.src(u))
@@ -513,7 +530,7 @@ func (g *lawGen) combine(s sem, t *TX) (string, string) {
 		case mDefault:
 			panic("harness: Monoid never resolves by type for " + t.Key())
 		default:
-			fs := sem{int(Monoid), r.ctx, r.rec}
+			fs := sem{int(Monoid), r.ctx, r.rec, ""}
 			if !d.IsStruct {
 				u := d.Under.Subst(d.bind(t.El))
 				c, z := g.combine(fs, u)
@@ -541,7 +558,7 @@ func (g *lawGen) combine(s sem, t *TX) (string, string) {
 
 // fieldClass names the input class of a field: its kind and the strongest resolution rule involved.
 func (g *lawGen) fieldClass(s sem, t *TX) string {
-	rank := map[string]int{"derive-package": 0, "parameter": 1, "type-package-derived": 2, "local-derived": 3, "recursive-derived": 4, "type-package": 5, "local-override": 6}
+	rank := map[string]int{"derive-package": 0, "alternative-derive-package": 1, "parameter": 1, "type-package-derived": 2, "local-derived": 3, "recursive-derived": 4, "type-package": 5, "local-override": 6}
 	best := "derive-package"
 	up := func(m string) {
 		if rank[m] > rank[best] {
@@ -557,6 +574,8 @@ func (g *lawGen) fieldClass(s sem, t *TX) string {
 				up("parameter")
 			} else if s.tc >= 0 && s.ctx.findOverride(TC(s.tc), "basic:"+t.Basic) != nil {
 				up("local-override")
+			} else if s.dp != "" && t.Basic == "string" {
+				up("alternative-derive-package")
 			}
 		case KSeq:
 			if s.tc == int(Eq) && s.ctx.SortedSeq {
@@ -570,7 +589,7 @@ func (g *lawGen) fieldClass(s sem, t *TX) string {
 			r := resolveNamed(TC(s.tc), s.ctx, t.Decl, s.rec)
 			up(string(r.mode))
 			if r.ctx != nil {
-				fs := sem{s.tc, r.ctx, r.rec}
+				fs := sem{s.tc, r.ctx, r.rec, r.dp}
 				if t.Decl.IsStruct {
 					for _, f := range fieldsOf(t, r.ctx) {
 						walk(fs, f.T)
@@ -726,7 +745,7 @@ func genLawTest(p *Pkg, targets []lawTarget) (src string, err error) {
 		d := x.Decl
 		tc := x.TC
 		iname := instanceName(tc, p, d)
-		s := sem{int(tc), p, x.Recursive}
+		s := sem{int(tc), p, x.Recursive, x.DP}
 		// the concrete type the laws run on
 		t := named(d)
 		var gargs []string
@@ -826,12 +845,27 @@ func genLawTest(p *Pkg, targets []lawTarget) (src string, err error) {
 				}
 				tagLit = "[]string{" + strings.Join(tl, ", ") + "}"
 			}
+			// storage shapes at every position at once: empty slices / Seq with spare capacity and zero-length maps,
+			// one-element containers of those, one-element slices with spare capacity (see gen)
+			fmt.Fprintf(&laws, "\tpool = append(pool, %[1]s(-1, 0), %[1]s(-2, 0), %[1]s(-3, 0))\n", g.gen(t))
 			fmt.Fprintf(&laws, "\trunClone(%q, inst, pool, %s, %s, %v, %s)\n", typ, classLit, tagLit, d.IsStruct, g.eqv(sem{tc: -1}, t))
 		case Show:
+			// derive-package oracle (only in packages that use the scratch module's upshow next to the library's
+			// show): the String instance of the directive's own derive package renders the string leaves
+			mode, leaves := 0, "nil"
+			if p.usesAltDP(Show) && d.IsStruct {
+				if lf := g.strLeaves(t); lf != "" {
+					leaves = lf
+					mode = 2
+					if x.DP == "upshow" {
+						mode = 1
+					}
+				}
+			}
 			if containsPtr(t, map[*Decl]bool{}) {
-				fmt.Fprintf(&laws, "\trunShow(%q, inst, pool, nil)\n", typ)
+				fmt.Fprintf(&laws, "\trunShow(%q, inst, pool, nil, %s, %d)\n", typ, leaves, mode)
 			} else {
-				fmt.Fprintf(&laws, "\trebuilt, _ := %s()\n\trunShow(%q, inst, pool, rebuilt)\n", g.pool(t), typ)
+				fmt.Fprintf(&laws, "\trebuilt, _ := %s()\n\trunShow(%q, inst, pool, rebuilt, %s, %d)\n", g.pool(t), typ, leaves, mode)
 			}
 		}
 		laws.WriteString("}\n\n")
@@ -929,4 +963,80 @@ func (g *lawGen) refTopMonoid(s sem, t *TX) (string, string) {
 	}
 	fmt.Fprintf(&g.fns, "func %s(a, b %s) %s {\n%s\n}\n\nfunc %s() %s {\n%s\n}\n\n", name, T, T, indent(body), ename, T, indent(empty))
 	return name, ename
+}
+
+// ---- string leaves (derive-package oracle of Show) -------------------------------------------------------
+
+// usesAltDP: some directive of the package for tc names one of the scratch module's own derive packages.
+func (p *Pkg) usesAltDP(tc TC) bool {
+	for _, x := range p.Derives {
+		if x.TC == tc && x.DP != "" {
+			return true
+		}
+	}
+	return false
+}
+
+// strLeaves writes func(v T) []string returning the string values a derived Show of the struct type t
+// renders through the String instance of the directive's own derive package: string fields and strings
+// inside slices / Seq / Options / pointers / map keys and values / Tuple2 of the fields - not those
+// inside a nested named type (its instance has a directive, and a derive package, of its own). Returns
+// "" when a field of the struct is or contains a named type (then the presence / absence of the other
+// package's rendering says nothing about this directive).
+func (g *lawGen) strLeaves(t *TX) string {
+	fs := fieldsOf(t, g.p)
+	hasNamed := false
+	for _, f := range fs {
+		f.T.walk(func(x *TX) {
+			if x.K == KNamed || x.K == KHList {
+				hasNamed = true
+			}
+		})
+	}
+	if hasNamed {
+		return ""
+	}
+	name, fresh := g.fn("sl", t.Key())
+	if !fresh {
+		return name
+	}
+	var walk func(t *TX, v string, depth int) string
+	walk = func(t *TX, v string, depth int) string {
+		it := fmt.Sprintf("e%d", depth)
+		switch t.K {
+		case KBasic:
+			if t.Basic == "string" {
+				return "out = append(out, " + v + ")\n"
+			}
+		case KSlice, KSeq:
+			if in := walk(t.El[0], it, depth+1); in != "" {
+				return fmt.Sprintf("for _, %s := range %s {\n%s}\n", it, v, in)
+			}
+		case KOption:
+			if in := walk(t.El[0], it, depth+1); in != "" {
+				return fmt.Sprintf("if %s.IsDefined() {\n\t%s := %s.Get()\n%s}\n", v, it, v, in)
+			}
+		case KPtr:
+			if in := walk(t.El[0], it, depth+1); in != "" {
+				return fmt.Sprintf("if %s != nil {\n\t%s := *%s\n%s}\n", v, it, v, in)
+			}
+		case KMap:
+			kin, vin := walk(t.El[0], "k"+it, depth+1), walk(t.El[1], it, depth+1)
+			if kin != "" || vin != "" {
+				return fmt.Sprintf("for k%s, %s := range %s {\n\t_, _ = k%s, %s\n%s%s}\n", it, it, v, it, it, kin, vin)
+			}
+		case KTuple2:
+			return walk(t.El[0], v+".I1", depth+1) + walk(t.El[1], v+".I2", depth+1)
+		}
+		return ""
+	}
+	var body strings.Builder
+	body.WriteString(g.getStmt(t, "v", len(fs)) + "\nvar out []string\n")
+	for i, f := range fs {
+		fmt.Fprintf(&body, "_ = v%d\n", i+1)
+		body.WriteString(walk(f.T, fmt.Sprintf("v%d", i+1), 0))
+	}
+	body.WriteString("return out")
+	fmt.Fprintf(&g.fns, "func %s(v %s) []string {\n%s\n}\n\n", name, g.src(t), indent(body.String()))
+	return name
 }
